@@ -40,7 +40,7 @@ BUILTIN = set(dir(di.DataFrame()))
 @st.composite
 def _value(draw, n):
     """A value plan for construction / assignment: how long it is relative to nrow."""
-    how = draw(st.sampled_from(["full", "full", "full", "scalar", "one", "other", "twod"]))
+    how = draw(st.sampled_from(["full", "full", "full", "scalar", "one", "other", "twod", "twod_view"]))
     kind = draw(st.sampled_from(KINDS))
     if how == "full":
         return {"how": how, "kind": kind, "vals": draw(gen.values(kind, n))}
@@ -50,6 +50,8 @@ def _value(draw, n):
     if how == "other":
         m = draw(st.integers(2, n + 3).filter(lambda x: x != n))
         return {"how": how, "kind": kind, "vals": draw(gen.values(kind, m))}
+    if how == "twod_view":
+        return {"how": how, "kind": kind, "vals": draw(gen.values(kind, n))}
     return {"how": "twod", "kind": "f", "vals": [1.0, 2.0]}
 
 
@@ -74,7 +76,7 @@ def _plan(draw, max_steps):
         if op in ("setitem", "setattr", "modify"):
             s["value"] = draw(_value(draw(st.integers(0, 6))))
         if op == "colnames":
-            s["how"] = draw(st.sampled_from(["fresh", "permute", "clash", "partial"]))
+            s["how"] = draw(st.sampled_from(["fresh", "permute", "clash", "partial", "shorter"]))
         steps.append(s)
     return {"ctors": ctors, "steps": steps}
 
@@ -108,6 +110,11 @@ def _mk_value(v, n):
         if len(vals) == n:
             vals = vals + vals[:1]
         return build.np_array(kind, vals), len(vals)
+    if v["how"] == "twod_view":
+        # a two-dimensional *column view* with exactly nrow elements (reshape of a real column): size fits, shape does not
+        vals = (vals * (n // max(len(vals), 1) + 1))[:n] if vals else [gen.POOLS[kind][-1]] * n
+        col = build.column(kind, vals)
+        return (col.reshape(-1, 1) if len(vals) % 2 else col.reshape(1, -1)), "twod"
     return np.zeros((2, 2)), "twod"
 
 
@@ -300,6 +307,8 @@ def _check(plan, ctx):
                 new = [(gen.NAMES_CLASH + gen.NAMES_NONID)[(s["a"] + j) % 14] for j in range(len(names))]
                 new = list(dict.fromkeys(new))
                 new = new + [f"z{j}" for j in range(len(names) - len(new))]
+            elif how == "shorter":
+                new = [f"h{j}" for j in range(s["a"] % len(names))]     # fewer names than columns: the rest keep theirs
             else:
                 new = [x if j % 2 else f"p{j}" for j, x in enumerate(names)]
             seen = set()                          # names are unique within a call (dict semantics otherwise)
@@ -312,9 +321,15 @@ def _check(plan, ctx):
                 data.colnames = new
             except Exception as e:
                 raise Violation(f"{where} raised", exc=f"{type(e).__name__}: {e}")
-            model.names = list(new)
-            model.removed |= set(names) - set(new)
-            model.removed -= set(new)
+            final = list(new) + names[len(new):]
+            if len(set(final)) != len(final):
+                final = None                                   # a kept name equals a new one: order not modelled
+            model.names = final
+            model.removed |= set(names) - set(final or dict.keys(data))
+            model.removed -= set(final or dict.keys(data))
+            if len(dict.keys(data)) != len(names) and final is not None:
+                raise Violation(f"{where}: colnames assignment changed the number of columns", before=names,
+                                assigned=new, after=list(dict.keys(data)))
             after = [build.snap_array(v) for v in dict.values(data)]
             if after != before:
                 raise Violation(f"{where}: colnames assignment changed column contents or positions",
